@@ -213,6 +213,36 @@ func envelopeHarness(r *fw.Run) fw.HarnessSpec {
 				return
 			}
 		}
+		// the bytes MarshalJSON returned are the caller's: marshalling other bodies afterwards (a batch being collected)
+		// does not change them
+		if m, ok := ev.make(it.name, op, value).(json.Marshaler); ok {
+			var b1 []byte
+			var err error
+			func() {
+				defer func() {
+					if recover() != nil {
+						err = fmt.Errorf("panic")
+					}
+				}()
+				b1, err = m.MarshalJSON()
+			}()
+			if err == nil && len(b1) > 2 {
+				keep := append([]byte{}, b1...)
+				big := boc.NewCell()
+				for i := 0; i < 100; i++ {
+					_ = big.WriteUint(uint64(0xC0+i%16), 8)
+				}
+				for _, e2 := range envelopes {
+					if m2, ok := e2.make(abi.UnknownMsgOp, nil, big).(json.Marshaler); ok {
+						_, _ = m2.MarshalJSON()
+					}
+				}
+				if string(b1) != string(keep) {
+					c.Fail("marshal-result-changes-later:abi."+ev.kind, "the bytes returned by MarshalJSON for %q changed after other bodies were marshalled: %s became %s", it.name, trunc(string(keep)), trunc(string(b1)))
+					return
+				}
+			}
+		}
 		// a rejected document leaves nothing behind: documents that are valid JSON but carry a field of the wrong type
 		// are refused, and the empty body / this body parsed next are what they are on a fresh program
 		for round := 0; round < 4; round++ {
